@@ -4,6 +4,7 @@ from sa.pyfacts import Repo
 from sa.report import Check
 from sa.rules import grammar_rules as GR
 from sa.rules import lr1_rules as L
+from sa.rules import unordered as U
 
 
 def main(tier):
@@ -33,6 +34,9 @@ def main(tier):
     chk.run("R-EXAMPLEFILE", L.examplefile, repo, floor=5)
     chk.run("R-LOADER", GR.loader, repo, floor=4)
     chk.run("R-CONFLICT", GR.conflict, repo, floor=2)
+    # parser objects built in one process (module parser, then expression parser) must not share tables
+    chk.run("R-MUTDEFAULT", U.mutdefault, repo, rel_suffixes=("front_end/lr1.py", "front_end/parser.py", "front_end/generate_cached_parser.py"),
+            floor=25, control=lambda: U.control_mutdefault(repo))
     programs = sum(v.get("cached_states_matched", 0) for v in iso.detail.values()) + err.detail.get("examples", 0)
     chk.extra_coverage.update({
         "programs": max(programs, 1),
